@@ -152,7 +152,7 @@ package json
 
 //@ func NewNumber(b)
 //@   props C10 C02 C07
-//@   requires len(b) <= 1000000000000
+//@   assumes len(b) <= 1000000000000
 //@   nopanic
 //@   defines (result1 == nil) == parseOK(b)
 //@   ensures result1 == nil ==> result0 != nil && fresh(result0) && normNumber(*result0)
